@@ -174,7 +174,7 @@ func TestC15(t *testing.T) {
 	emit("corpus", plain, 0, 0, true, false)
 	emit("corpus", numa2, 3, 0, true, true)
 
-	n := r.N(300, 5000)
+	n := r.N(180, 5000)
 	for i := 0; i < n; i++ {
 		spec := g.nodeSpec(100, g.chance(0.5))
 		forget := 0
